@@ -31,7 +31,8 @@ RULE = ("seeded plans: 1-3 trees whose entries are drawn from an adversarial "
         "blobs to absolute/parent/sibling/.git targets, set-uid/gid/sticky/"
         "world-writable modes, symlink<->directory<->file replacements of the "
         "same name between consecutive trees; materialised by clone / "
-        "checkout / reset --hard / build_index_from_tree / update_working_tree "
+        "checkout / reset --hard / reset --mixed + --hard / "
+        "build_index_from_tree / update_working_tree "
         "with core.protectNTFS/HFS on or off, optional injected error "
         "mid-checkout. Distinct by hash of the tree specs + operations; "
         "non-trivial when at least one entry is unsafe or a name changes kind "
@@ -40,7 +41,9 @@ ASSUMPTIONS = [
     "the work tree sits six directories deep inside the sandbox and generated "
     "'..' chains are at most four long, so every escape lands in the "
     "monitored sandbox",
-    "absolute symlink targets point into the sandbox (a canary directory)",
+    "absolute symlink targets point into the sandbox (a canary directory) or "
+    "at '/'; a mutating call that lands outside the sandbox is recorded as a "
+    "violation and refused by the simulator (EACCES), never executed",
     "the control directory may change only in index, HEAD, ORIG_HEAD, refs/, "
     "logs/, objects/, packed-refs, shallow, and (for clone) config",
     "Windows/macOS file-system semantics are not simulated: NTFS/HFS "
@@ -98,7 +101,9 @@ def gen_tree(rng, depth=0, p_unsafe=0.4):
             tgt = rng.choice(["../outside-rel", "../../../../../../outside",
                               "ABS:outside", "ABS:wt/.git", ".git",
                               ".git/hooks", "sibling", "../", "/",
-                              "ABS:wt/.git/hooks", "dir", "."])
+                              "ABS:wt/.git/hooks", "dir", ".",
+                              "ABS:outside/canary", "../outside-rel/canary",
+                              ".git/config", ".git/HEAD"])
             ents.append({"n": name.hex(), "k": "link", "t": tgt})
         elif depth < 2:
             ents.append({"n": name.hex(), "k": "dir",
@@ -154,7 +159,12 @@ def gen_plan(seed, tier):
     ops = [first]
     for _ in trees[1:]:
         ops.append(rng.choice(["checkout_branch", "checkout_force",
-                               "reset_hard", "update_working_tree"]))
+                               "reset_hard", "update_working_tree",
+                               "reset_mixed_hard"]))
+    if rng.random() < 0.15:
+        # the same tree again by another route: the index already lists it
+        trees.append(trees[-1])
+        ops.append(rng.choice(["reset_mixed_hard", "reset_hard"]))
     faults = []
     if len(trees) > 1 and rng.random() < 0.3:
         faults.append({"actor": "main", "nth": rng.randrange(5, 60),
@@ -257,7 +267,11 @@ def run_plan(plan):
         viols.append({"sig": "C17/" + sig, "detail": str(detail)[:700]})
 
     with util.Sandbox() as root:
-        fs = simfs.FS(root, sim, {"shuffle_listdir": True})
+        fs = simfs.FS(root, sim, {"shuffle_listdir": True, "jail": True})
+        fs.escape_hook = lambda call, path: viol(
+            f"write-outside-sandbox/{call}",
+            f"{call} on {path!r}: outside the simulated disk (refused by the "
+            f"simulator with EACCES)")
         simfs.activate(fs)
         deep = os.path.join(root, *DEPTH)
         R.makedirs(deep)
@@ -299,10 +313,8 @@ def run_plan(plan):
         state = {"git_snap": None, "in_clone": False}
 
         # ------------------------------------------------ the monitor
-        def resolved(rel):
-            ab = os.path.join(fs.root, rel)
-            parent = R.realpath(os.path.dirname(ab))
-            return os.path.join(parent, os.path.basename(ab))
+        def resolved(rel, call="unlink"):
+            return fs.resolve_target(call, rel)
 
         def inside(p, base):
             return p == base or p.startswith(base + "/")
@@ -313,7 +325,7 @@ def run_plan(plan):
             if call in ("kwrite", "write", "flush", "close_w", "fsync",
                         "ftruncate"):
                 return  # the target was judged when it was opened
-            tgt = resolved(rel)
+            tgt = resolved(rel, call)
             if inside(tgt, R.realpath(src)):
                 viol(f"write-into-source-repository/{call}", rel)
                 return
@@ -427,6 +439,11 @@ def run_plan(plan):
                             elif op == "checkout_force":
                                 porcelain.checkout(r, b"t%d" % i, force=True)
                             elif op == "reset_hard":
+                                porcelain.reset(r, "hard", commits[i])
+                            elif op == "reset_mixed_hard":
+                                # index filled from the tree first (no files
+                                # written), then materialised
+                                porcelain.reset(r, "mixed", commits[i])
                                 porcelain.reset(r, "hard", commits[i])
                             elif op == "update_working_tree":
                                 from dulwich.diff_tree import tree_changes
